@@ -227,6 +227,10 @@ func main() {
 		if j.res == nil {
 			continue // reported by runInWorkers
 		}
+		if j.res.Skip != "" {
+			rep.Count("skipped:hang-established:" + j.res.Skip)
+			continue
+		}
 		finds, implPacks, implState, nPack := j.res.Finds, j.res.Packs, j.res.State, j.res.NPack
 		rep.CountN("free:queue-drops", j.res.Drops)
 		if j.res.Incon {
